@@ -1,4 +1,5 @@
 import Dcg.Proofs.FieldLift
+import Dcg.Proofs.FieldUnionMember
 /-
 C05 — required, nullable and default semantics of each member are carried over.
 
@@ -377,5 +378,179 @@ theorem msgspec_sort_key_exact (v : Vec) (hv : v.valid = true) (hk : v.kind = .m
 theorem msgspec_sort_key_witness :
     sortKey d7mWitness.kind (fromSchema d7mWitness) = some false ∧
     (render d7mWitness).asg = .lit .none ∧ msKeyMismatch d7mWitness = true := by decide
+
+/-! ### The spelling options
+
+`--use-union-operator`, `--use-standard-collections` and `--use-generic-container-types` are not
+part of `Vec`: the end-to-end campaign draws them at random and compares with the model that does
+not know them. One of them is not only spelling (`semG`). -/
+
+/-- `--use-generic-container-types` takes the class away exactly for a constrained array member of
+pydantic-1 output (pydantic 1 refuses `Sequence[…]` with `max_items`); otherwise — and always when
+the option is off — the semantics are those every theorem above speaks about. -/
+theorem generic_container_exact (v : Vec) (ug : Bool) :
+    semG v false = sem v ∧
+    (v1SequenceConstraint v ug = false → semG v ug = sem v) ∧
+    (v1SequenceConstraint v ug = true → (semG v ug).loads = false) := by
+  refine ⟨by simp [semG, v1SequenceConstraint], ?_, ?_⟩ <;> intro h <;> simp [semG, h]
+
+/-- the family is real: `{"type": "array", "maxItems": 9}` → `n: Optional[Sequence[str]] = Field(None, max_items=9)` -/
+theorem generic_container_witness :
+    let v : Vec := ⟨.v1, .no, false, .none, .array, true, ⟨false, false, false, false, false, false⟩, .own, .plain, false⟩
+    v.valid = true ∧ (sem v).loads = true ∧ (semG v true).loads = false := by decide
+
+/-! ### Union-typed members (`anyOf` / `oneOf`): null admitted through an alternative
+
+`DataType.type_hint` collects the hints of the alternatives, skips repeated ones, strips `None`
+from each and records in `is_optional` that it did. The theorems below are about lists of
+alternatives of ANY length (induction, not enumeration). Model: `Dcg.Model.FieldUnion`. -/
+
+/-- De-duplication and `None`-stripping preserve null admission, `X | Y | None` spelling: if the
+type was optional or the hint of SOME alternative admits `None` — also one that repeats an earlier
+alternative up to `None`, also one skipped as already collected — the hint written for the union
+admits `None`. -/
+theorem union_dedup_preserves_null_operator (kids : List PHint) (o : Bool)
+    (h : o = true ∨ ∃ k ∈ kids, PHint.admitsNone k = true) : (nodeP kids o).1.admitsNone = true :=
+  nodeP_preserves_null kids o h
+
+/-- … and in the `Union[…]` / `Optional[…]` spelling. -/
+theorem union_dedup_preserves_null_bracket (kids : List BHint) (o : Bool)
+    (h : o = true ∨ ∃ k ∈ kids, BHint.admitsNone k = true) : (nodeB kids o).1.admitsNone = true :=
+  nodeB_preserves_null kids o h
+
+/-- non-vacuity, the shape of the regression this guards against: `str` followed by `str | None` -/
+example : nodeP [[.atom .a], [.atom .a, .none]] false = ([.atom .a, .atom .a, .none], true) ∧
+    nodeB [.atom .a, .opt (.atom .a)] false = (.union [.atom .a, .opt (.atom .a)], false) := by decide
+
+/-- For a member whose alternatives are given by the schema: an alternative of type `null` or with
+a type list containing "null" (OpenAPI `nullable: true` counts under strict-nullable) makes the
+written annotation admit `None`, in both spellings. -/
+theorem union_alternative_null_reaches_annotation (uo sn : Bool) (alts : List Alt)
+    (h : alts.any (Alt.effNull sn) = true) : (unionOutcome uo sn alts).1 = true :=
+  unionOutcome_text uo sn alts h
+
+/-- `data_type.is_optional` (read by the class templates, D7) is only ever set on a type whose
+written hint admits `None`. -/
+theorem union_flag_implies_annotation_null (uo sn : Bool) (alts : List Alt)
+    (h : (unionOutcome uo sn alts).2 = true) : (unionOutcome uo sn alts).1 = true :=
+  unionOutcome_flag_text uo sn alts h
+
+/-- Nothing is invented: alternatives that are all plain type names give an annotation that does
+not admit `None` and leave `is_optional` unset — however many they are, whichever repeat. -/
+theorem union_of_plain_alternatives_stays_plain (uo sn : Bool) (alts : List Alt)
+    (h : alts.all Alt.isPlain = true) : unionOutcome uo sn alts = (false, false) :=
+  unionOutcome_plain uo sn alts h
+
+/-- Reduction of a union-typed member to the scalar space: the member is rendered as the scalar
+member `asVec` (null source "type list" iff `is_optional` got set), except that its annotation also
+admits `None` when the written union does. All theorems above about `render`/`sem` of valid scalar
+vectors therefore speak about union-typed members through `asVec`. -/
+theorem union_member_reduces_to_scalar (u : UVec) :
+    renderU u = { render u.asVec with opt := (render u.asVec).opt || u.textNull } :=
+  renderU_eq u
+
+/-- CLAUSE 5 for union-typed members, FULL STRENGTH but for one family: a member with an
+alternative that admits null accepts null — every kind, every option vector, both spellings, any
+number of alternatives — unless the only null-admitting alternatives are OpenAPI `nullable: true`
+ones and strict-nullable is off (`nullable` is not read then; same family as `nullableFlagIgnored`). -/
+theorem union_member_accepts_null (u : UVec) (hn : u.admitsNull = true) (hx : u.flagIgnored = false) :
+    (semU u).acceptsNull = true := by
+  apply semOf_acceptsNull_of_opt
+  rw [union_member_reduces_to_scalar]
+  have ht : u.textNull = true := by
+    apply unionOutcome_text
+    obtain ⟨a, ha, hn⟩ := List.any_eq_true.mp hn
+    cases hsn : u.base.opts.sn
+    · simp only [UVec.flagIgnored, hsn, Bool.not_false, Bool.true_and] at hx
+      have : ¬ (∀ a ∈ u.alts, a.nullOnlyByFlag = true) := by
+        intro hall; rw [List.all_eq_true.mpr hall] at hx; cases hx
+      apply Classical.byContradiction
+      intro hno
+      apply this
+      intro b hb
+      cases b with
+      | flag x => rfl
+      | plain x => rfl
+      | nullable x => exact absurd (List.any_eq_true.mpr ⟨_, hb, rfl⟩) hno
+      | null => exact absurd (List.any_eq_true.mpr ⟨_, hb, rfl⟩) hno
+    · apply List.any_eq_true.mpr
+      refine ⟨a, ha, ?_⟩
+      cases a <;> simp_all [Alt.effNull, Alt.typeListNull, Alt.admitsNull]
+  simp [ht]
+
+/-- the excluded family is real: OpenAPI `anyOf: [{type: string}, {type: string, nullable: true}]`
+without strict-nullable is written `n: str` -/
+theorem union_flag_ignored_witness :
+    let u : UVec := ⟨⟨.v2, .no, true, .none, .scalar, false, ⟨false, false, false, false, false, false⟩, .own, .plain, false⟩,
+      [.plain .a, .flag .a], false⟩
+    u.valid = true ∧ u.admitsNull = true ∧ u.flagIgnored = true ∧ (semU u).acceptsNull = false := by decide
+
+/-- EXACT: a union-typed member rejects null precisely when its written union does not admit
+`None` and the scalar member it reduces to rejects null as well. -/
+theorem union_member_null_exact (u : UVec) :
+    (semU u).acceptsNull = false ↔ (u.textNull = false ∧ (sem u.asVec).acceptsNull = false) := by
+  cases ht : u.textNull
+  · have : renderU u = render u.asVec := by rw [union_member_reduces_to_scalar, ht]; simp
+    simp [semU, sem, semD, render, this, UVec.asVec, Vec.reduce]
+  · have : (semU u).acceptsNull = true := by
+      apply semOf_acceptsNull_of_opt; rw [union_member_reduces_to_scalar, ht]; simp
+    simp [this]
+
+/-- CLAUSES 1/6 for union-typed members, EXACT: a member the parser keeps required need not be
+supplied precisely in the three scalar families evaluated on `asVec` (D7: `= None` appended because
+`is_optional` got set; the same in the msgspec template; pydantic-1 bare `Optional`) and in their
+union-specific sibling `v1BareText` (pydantic 1 reading the `None` inside the written union). -/
+theorem union_member_required_exact (u : UVec) (hv : u.valid = true) (ho : u.asVec.omittable = false) :
+    (semU u).mustSupply = false ↔
+      (d7 u.asVec || d7m u.asVec || v1Bare u.asVec || v1BareText u) = true := by
+  have hva : u.asVec.valid = true := by
+    simp only [UVec.valid, Bool.and_eq_true] at hv; exact hv.1
+  have hk : u.asVec.kind = u.base.kind := rfl
+  have h1 := effectively_required_exact u.asVec hva ho
+  have h2 := semOf_mustSupply_opt u.base.kind (render u.asVec) u.textNull
+  have hs : sem u.asVec = semOf u.base.kind (render u.asVec) := rfl
+  rw [semU, union_member_reduces_to_scalar, h2, ← hs, h1]
+  simp only [v1BareText, Bool.or_eq_true, Bool.and_eq_true, beq_iff_eq, Bool.not_eq_true', bne_iff_ne, ne_eq]
+  constructor
+  · rintro (h | ⟨a, b, c, d, e⟩)
+    · exact Or.inl h
+    · exact Or.inr ⟨⟨⟨⟨a, b⟩, c⟩, d⟩, e⟩
+  · rintro (h | ⟨⟨⟨⟨a, b⟩, c⟩, d⟩, e⟩)
+    · exact Or.inl h
+    · exact Or.inr ⟨a, b, c, d, e⟩
+
+/-- With no alternative admitting null (all plain) a required union-typed member without default
+must be supplied — full strength, every kind, every option vector. -/
+theorem union_required_plain_must_supply (u : UVec) (hv : u.valid = true)
+    (hr : u.base.inreq = true) (hd : u.base.dflt = .none) (hf : u.base.opts.fo = false)
+    (hp : u.alts.all Alt.isPlain = true) : (semU u).mustSupply = true := by
+  have hva : u.asVec.valid = true := by
+    simp only [UVec.valid, Bool.and_eq_true] at hv; exact hv.1
+  have ho := unionOutcome_plain u.unionOp u.base.opts.sn u.alts hp
+  have ht : u.textNull = false := by simp [UVec.textNull, ho]
+  have hfl : u.flag = false := by simp [UVec.flag, ho]
+  have hm := required_nonnullable_must_supply u.asVec hva hr hd hf (by simp [Vec.admitsNull, UVec.asVec, hfl, NullSrc.admitsNull])
+  have : renderU u = render u.asVec := by rw [union_member_reduces_to_scalar, ht]; simp
+  rw [semU, this]; exact hm
+
+/-- For every kind but pydantic 1, must-supply / value-when-omitted / class creation / sharing of a
+union-typed member are those of `asVec`, so clauses 2–4 hold for it exactly as proved above. -/
+theorem union_member_other_clauses (u : UVec) (hk : u.base.kind ≠ .v1) :
+    (semU u).mustSupply = (sem u.asVec).mustSupply ∧ (semU u).omitted = (sem u.asVec).omitted ∧
+    (semU u).loads = (sem u.asVec).loads ∧ (semU u).shared = (sem u.asVec).shared := by
+  rw [semU, union_member_reduces_to_scalar]
+  exact semOf_rest_opt u.base.kind (render u.asVec) u.textNull hk
+
+/-- non-vacuity and the two spellings side by side: a required `anyOf: [{type: string},
+{type: [string, null]}]` member is `n: str | str | None = None` under the union operator
+(`is_optional` set ⇒ D7) and `n: Union[str, Optional[str]]` without it; both accept null. -/
+theorem union_member_witness :
+    let b : Vec := ⟨.v2, .no, true, .none, .scalar, false, ⟨false, false, false, false, false, false⟩, .own, .plain, false⟩
+    let uo : UVec := ⟨b, [.plain .a, .nullable .a], true⟩
+    let ub : UVec := ⟨b, [.plain .a, .nullable .a], false⟩
+    uo.valid = true ∧ uo.flag = true ∧ renderU uo = ⟨true, false, .no, .lit .none⟩ ∧ (semU uo).acceptsNull = true ∧
+    d7 uo.asVec = true ∧
+    ub.valid = true ∧ ub.flag = false ∧ renderU ub = ⟨true, false, .no, .none⟩ ∧ (semU ub).acceptsNull = true ∧
+    (semU ub).mustSupply = true := by decide
 
 end Dcg.Props.C05
